@@ -414,12 +414,12 @@ def _dump_helper_coeffs(f, data, spin=None):
         norb = data.mo.norba
         coeff = data.mo.coeffsa[permutation] * signs.reshape(-1, 1)
         ener = data.mo.energiesa
-        irreps = data.mo.irreps[:norb] if data.mo.irreps is not None else ["a1g"] * norb
+        irreps = data.mo.irrepsa if data.mo.irreps is not None else ["a1g"] * norb
     elif spin == "b":
         norb = data.mo.norbb
         coeff = data.mo.coeffsb[permutation] * signs.reshape(-1, 1)
         ener = data.mo.energiesb
-        irreps = data.mo.irreps[norb:] if data.mo.irreps is not None else ["a1g"] * norb
+        irreps = data.mo.irrepsb if data.mo.irreps is not None else ["a1g"] * norb
     else:
         raise DumpError("A spin must be specified", f)
 
